@@ -128,6 +128,8 @@ var c09Small = []rsT{
 	{"repository", "a", "delete"},
 	{"foo", "bar", "baz"},
 	{"repository", "", "pull"},
+	{"repository", "a", "PULL"}, // case variants of the known actions are other actions
+	{"repository", "a", "Push"},
 }
 
 func c09PairCase(a, b []rsT, probes []rsT) Case {
@@ -195,9 +197,9 @@ func (*c09) Gen(rng *RNG, tier string) []Case {
 		"scope len e", "scope isempty e", "scope isempty u", "scope equal u u", "scope equal u e", "scope len u",
 	}})
 	// random large universes, permutations and duplicates, parse strings
-	types := []string{"repository", "registry", "foo", "repo", "", "repository2"}
-	ress := []string{"", "a", "b", "a/b", "catalog", "zz", "A", "a b", "é", "\xff", "a:b", "x,y"}
-	acts := []string{"pull", "push", "*", "delete", "", "pul", "pushx", "pull,push"}
+	types := []string{"repository", "registry", "foo", "repo", "", "repository2", "Repository", "REGISTRY"}
+	ress := []string{"", "a", "b", "a/b", "catalog", "zz", "A", "a b", "é", "\xff", "a:b", "x,y", "Catalog", "CATALOG"}
+	acts := []string{"pull", "push", "*", "delete", "", "pul", "pushx", "pull,push", "PULL", "Push", "pULL", "PUSH", "pull ", " push"}
 	randRS := func() rsT {
 		switch rng.Intn(10) {
 		case 0:
@@ -267,7 +269,7 @@ func (*c09) Gen(rng *RNG, tier string) []Case {
 				na := 1 + rng.Intn(3)
 				var as []string
 				for q := 0; q < na; q++ {
-					as = append(as, pick(rng, []string{"pull", "push", "delete", "*", ""}))
+					as = append(as, pick(rng, []string{"pull", "push", "delete", "*", "", "PULL", "Push"}))
 				}
 				sb.WriteString(pick(rng, []string{"repository", "repository", "foo"}) + ":" + pick(rng, []string{"a", "b", "a/b", "", "zz"}) + ":" + strings.Join(as, ","))
 			}
